@@ -279,6 +279,8 @@ def enc_val(v):
     """Python attribute value -> canonical JSON form used in comparisons"""
     if v is None or isinstance(v, str):
         return v
+    if type(v).__module__ == "numpy" and hasattr(v, "item") and getattr(v, "shape", None) == ():
+        v = v.item()          # a numpy scalar is the Python number it equals (an old numpy-integer ID recorded as a label)
     if isinstance(v, bool):
         return {"$o": json.dumps(v)}
     if isinstance(v, int):
